@@ -1,6 +1,9 @@
 import MpVerif.C11.LemmasState
 import MpVerif.C11.LemmasLookup
 import MpVerif.C11.ModelPtr
+import MpVerif.C11.Expected
+import MpVerif.Gen.C11Tok
+import MpVerif.C11.LemmasGen
 /-!
 # C11 — Solver option parsing is total, faithful and ordered: property theorems
 
@@ -12,6 +15,7 @@ namespace MpVerif.C11
 
 /-! ## totality: progress and termination -/
 
+set_option maxRecDepth 100000 in
 /-- Every iteration of the `ParseOptionString` loop that goes on has consumed at least one byte.
 (This is the fact that makes Lean accept `parseStr` as a total function: fuel-free well-founded
 recursion on the remaining length.) -/
@@ -39,9 +43,12 @@ written with or without `=`, with integer (in `int` range), real, quoted or bare
 the rest-of-element string on the command line), flags, `key=?` queries, unknown keys, values
 given to flags — separated by blanks, with arbitrary leading blanks: parsing the rendered text
 terminates normally in exactly the state obtained by applying the items one after the other.
+With the default *throwing* error handler the same holds for every list without error items
+(unknown key / value given to a flag; for those see `C11_unknown_throws`, `C11_flag_value_throws`).
 `applyItem` involves no lexing: it stores the denoted value in the resolved option, records the
 echo, or records the error. -/
-theorem C11_faithful (cfg : Cfg) (hthrow : cfg.throwing = false) (items : List (Item × Bytes))
+theorem C11_faithful_general (cfg : Cfg) (items : List (Item × Bytes))
+    (hthrow : cfg.throwing = true → ∀ x ∈ items, isErrItem x.1 = false)
     (h : ItemsWF cfg items) (lead : Bytes) (hlead : Blank lead) (st : St) :
     parseStr cfg (lead ++ renderAll items) st = (.ok, applyAll cfg items st) := by
   induction items generalizing lead st with
@@ -51,6 +58,14 @@ theorem C11_faithful (cfg : Cfg) (hthrow : cfg.throwing = false) (items : List (
   | cons x rest ih =>
     obtain ⟨it, trail⟩ := x
     obtain ⟨hwf, htrail, hsepar, hrawc, hrest⟩ := h
+    have hthrow' : cfg.throwing = true → ∀ x ∈ rest, isErrItem x.1 = false :=
+      fun ht x hx => hthrow ht x (by simp [hx])
+    have hnothrow : isErrItem it = true → cfg.throwing = false := by
+      intro he
+      cases hc : cfg.throwing with
+      | false => rfl
+      | true => have := hthrow hc (it, trail) (by simp); simp [he] at this
+    have ih := fun hr l hl s => ih hthrow' hr l hl s
     have hn := renderAll_startsItem cfg rest hrest
     have hend : trail = [] → renderAll rest = [] := by
       intro ht
@@ -84,11 +99,17 @@ theorem C11_faithful (cfg : Cfg) (hthrow : cfg.throwing = false) (items : List (
       rw [parseStr_cont (step_query hlead hwf hK)]
       exact ih hrest trail htrail _
     | unknown key pre eq =>
-      rw [parseStr_cont (step_unknown hlead hwf hthrow htrail hn hend)]
+      rw [parseStr_cont (step_unknown hlead hwf (hnothrow rfl) htrail hn hend)]
       simpa using ih hrest [] Blank.nil (applyItem cfg (.unknown key pre eq) st)
     | flagArg key pre post junk =>
-      rw [parseStr_cont (step_flagArg hlead hwf hthrow hK)]
+      rw [parseStr_cont (step_flagArg hlead hwf (hnothrow rfl) hK)]
       exact ih hrest trail htrail _
+
+/-- `C11_faithful_general` with an error handler that returns (any items) -/
+theorem C11_faithful (cfg : Cfg) (hthrow : cfg.throwing = false) (items : List (Item × Bytes))
+    (h : ItemsWF cfg items) (lead : Bytes) (hlead : Blank lead) (st : St) :
+    parseStr cfg (lead ++ renderAll items) st = (.ok, applyAll cfg items st) :=
+  C11_faithful_general cfg items (fun ht => by rw [hthrow] at ht; cases ht) h lead hlead st
 
 /-! ## exactly that option, exactly that value -/
 
@@ -104,6 +125,37 @@ theorem C11_assign_sets_exactly (cfg : Cfg) (key : Bytes) (sep : Sep) (lit : Lit
   · rw [slot_val_applyItem cfg _ st d.id hi]; simp [itemTarget, hl, hp]
   · intro j hj hne
     rw [slot_val_applyItem cfg _ st j hj]; simp [itemTarget, hl, Ne.symm hne]
+
+/-- Stronger form: every *other* slot is left entirely unchanged (value, wildcard/list record, wildcard state),
+and no error is recorded. -/
+theorem C11_assign_touches_only_target (cfg : Cfg) (key : Bytes) (sep : Sep) (lit : Lit) (st : St)
+    (d : OptDecl) (ob : Option Bytes) (hl : lookup cfg.table key = some (d, ob)) :
+    (∀ j, j ≠ d.id → (applyItem cfg (.assign key sep lit) st).slot j = st.slot j) ∧
+    (applyItem cfg (.assign key sep lit) st).errs = st.errs := by
+  simp only [applyItem, findOption_of_lookup hl]
+  constructor
+  · intro j hj
+    rw [slot_doEcho, slot_modify_other _ _ (Ne.symm hj)]
+    cases ob with
+    | none => rfl
+    | some b => simp only [noteMatch]; rw [slot_modify_other _ _ (Ne.symm hj)]
+  · rw [(values_doEcho _ _ _).2.1]
+    simp only [St.modify]
+    exact (values_noteMatch d key ob st).2.1
+
+/-- An assignment to a wildcard option written with any of its patterns records exactly the entry
+(key body ↦ value): the record grows by `(body, value)` with the body the lookup cut out of the key, and the
+getter (what the echo and a following `key=?` show for that body) returns the value. -/
+theorem C11_assign_sets_entry (cfg : Cfg) (key : Bytes) (sep : Sep) (lit : Lit) (st : St)
+    (d : OptDecl) (body : Bytes) (hl : lookup cfg.table key = some (d, some body)) (hlog : d.logged = true)
+    (hi : d.id < st.slots.length) :
+    ((applyItem cfg (.assign key sep lit) st).slot d.id).log = (body, lit.val) :: (st.slot d.id).log ∧
+    getValue d ((applyItem cfg (.assign key sep lit) st).slot d.id) = lit.val := by
+  simp only [applyItem, findOption_of_lookup hl, slot_doEcho, noteMatch]
+  have hi1 : d.id < (st.modify d.id fun sl => { sl with wcKey := key, wcBody := body }).slots.length := by
+    rw [modify_length]; exact hi
+  rw [slot_modify_same _ _ hi1, slot_modify_same _ _ hi]
+  simp [setValue, getValue, hlog]
 
 /-- an integer literal in `int` range denotes its mathematical value, e.g. the usual decimal
 rendering of `v` -/
@@ -176,6 +228,21 @@ theorem C11_unknown_throws (cfg : Cfg) (hthrow : cfg.throwing = true) (key pre :
   rw [step_unknown_general hlead hwf htrail hn hend]
   simp [reportError, hthrow, addErr]
 
+/-- With the default (throwing) error handler a value given to a flag ends the parse by an
+exception (`mp::Error`); no option value has changed. -/
+theorem C11_flag_value_throws (cfg : Cfg) (hthrow : cfg.throwing = true) (key pre post junk : Bytes)
+    (hwf : (Item.flagArg key pre post junk).WF cfg) (lead trail n : Bytes) (hlead : Blank lead)
+    (hK : EndsToken (trail ++ n)) (st : St) :
+    (parseStr cfg (lead ++ ((Item.flagArg key pre post junk).render ++ (trail ++ n))) st).1 = .threwError ∧
+    (parseStr cfg (lead ++ ((Item.flagArg key pre post junk).render ++ (trail ++ n))) st).2.values = st.values ∧
+    (parseStr cfg (lead ++ ((Item.flagArg key pre post junk).render ++ (trail ++ n))) st).2.errs = .flagArg key :: st.errs := by
+  obtain ⟨d, ob, hlk, hstep⟩ := step_flagArg_general (st := st) hlead hwf hK
+  have : step cfg (lead ++ ((Item.flagArg key pre post junk).render ++ (trail ++ n))) st =
+      .stop .threwError (addErr (.flagArg key) (noteMatch d key ob st)) := by
+    rw [hstep]; simp [reportError, hthrow, addErr]
+  rw [parseStr_stop this]
+  exact ⟨rfl, (values_noteMatch d key ob st).1, by simp [addErr, (values_noteMatch d key ob st).2.1]⟩
+
 /-! ## order: later assignments override earlier ones; sources in the order
 mp_options, <exe>_options or <solver>_options, command line -/
 
@@ -224,6 +291,44 @@ theorem C11_order (c : Call) (hthrow : c.throwing = false) (st : St)
   simp only
   rw [C11_faithful_sources _ hthrow srcArg hAwf, applyAll_append]
   congr 2
+
+/-- **A later source overrides an earlier one.**  Under the hypotheses of `C11_order`: if the last
+assignment to a plain option `d` among the command-line items is `key [=] lit`, the option's final
+value is `lit`'s, whatever `mp_options` and `<solver>_options` assigned to it (likewise, by the same
+theorems, `<solver>_options` over `mp_options`). -/
+theorem C11_command_line_overrides_env (c : Call) (hthrow : c.throwing = false) (st : St)
+    (srcEnv srcArg : List (Bytes × List (Item × Bytes)))
+    (hE : envSources c = srcEnv.map (fun x => x.1 ++ renderAll x.2))
+    (hEwf : ∀ x ∈ srcEnv, Blank x.1 ∧ ItemsWF c.cfgEnv x.2)
+    (hA : c.argv.getD [] = srcArg.map (fun x => x.1 ++ renderAll x.2))
+    (hAwf : ∀ x ∈ srcArg, Blank x.1 ∧ ItemsWF c.cfgArg x.2)
+    (before after : List (Item × Bytes)) (key : Bytes) (sep : Sep) (lit : Lit) (trail : Bytes)
+    (hsplit : (srcArg.map (·.2)).flatten = before ++ (.assign key sep lit, trail) :: after)
+    (d : OptDecl) (ob : Option Bytes) (hl : lookup c.table key = some (d, ob)) (hp : d.plain = true)
+    (hi : d.id < st.slots.length)
+    (hafter : ∀ x ∈ after, ∀ d' v, itemTarget c.cfgArg x.1 = some (d', v) → d'.id ≠ d.id) :
+    (((parseOptions c st).2).slot d.id).val = lit.val ∧ (parseOptions c st).1 = .ok := by
+  rw [C11_order c hthrow st srcEnv srcArg hE hEwf hA hAwf, hsplit, ← List.append_assoc]
+  exact ⟨C11_last_wins c.cfgArg _ after key sep lit trail d ob { st with errs := [] } hl hp hi hafter, rfl⟩
+
+/-- **Option files.**  If the lines `ProcessLines_AvoidComments` hands over are well-formed item texts,
+reading the file (`tech:optionfile=<name>`, at any nesting depth still allowed) has exactly the effect of
+applying the file's items in order, after the name was saved. -/
+theorem C11_optionfile_faithful (c : Call) (hthrow : c.throwing = false) (n : Nat) (name content : Bytes)
+    (hfile : c.files.find? (fun f => f.1 == name) = some (name, content))
+    (srcs : List (Bytes × List (Item × Bytes)))
+    (hlines : fileLines content = srcs.map (fun x => x.1 ++ renderAll x.2))
+    (hwf : ∀ x ∈ srcs, Blank x.1 ∧ ItemsWF (c.cfgFile n) x.2)
+    (save : St → St) (st : St) :
+    fileLevel c (n + 1) name save st =
+      (.ok, applyAll (c.cfgFile n) (srcs.map (·.2)).flatten (save st)) := by
+  simp only [fileLevel, hfile, hlines]
+  exact C11_faithful_sources _ hthrow srcs hwf (save st)
+
+/-- beyond 32 nested option files (ampl/mp 5ace2c7) `mp::Error` is raised and nothing is read or saved: in
+particular a file that names itself ends with an error -/
+theorem C11_optionfile_nesting_limit (c : Call) (name : Bytes) (save : St → St) (st : St) :
+    fileLevel c 0 name save st = (.threwError, { st with errs := .fileNesting name :: st.errs }) := rfl
 
 /-- the environment sources in the order they are read -/
 theorem C11_env_source_order (c : Call) :
@@ -364,6 +469,116 @@ theorem C11_int_stored_partial (l : IntLit) (hl : l.WF) (tail : Bytes) (ht : Sto
     (-2147483648 ≤ l.value → l.value ≤ 2147483647 → wrap32 (clampLong l.value) = l.value) :=
   ⟨parseInt_lit l hl ht, wrap32_clamp_id⟩
 
+/-! ## tie to the source: definitions regenerated from `src/solver.cc` / `solver-opt.h` on every run
+
+`MpVerif.Gen.C11Tok` is emitted by `translators/gen_c11.py` from clang's typed AST of the current tree.  The theorems
+below state that the hand model's character classes, loop conditions, dispatch tests and integer conversion ARE the
+generated ones (for every byte), and that the statement structure of every function the model mirrors is the one the
+model was written against.  A change of the C++ code that alters any of them makes these theorems fail. -/
+
+section GenTie
+open MpVerif.CSem MpVerif.C11.CLib MpVerif.Gen.C11Tok
+
+set_option maxRecDepth 100000 in
+/-- the loop of `SkipSpaces` is `pScan isSpace` (`while (*s && isspace(*s)) ++s; return s;`) -/
+theorem C11_gen_SkipSpaces (c : UInt8) : (SkipSpaces_cond (charVal c) != 0) = (c != 0 && isSpace c) :=
+  byte_cases (fun c => (SkipSpaces_cond (charVal c) != 0) = (c != 0 && isSpace c)) (by decide) c
+
+set_option maxRecDepth 100000 in
+theorem C11_gen_SkipNonSpaces (c : UInt8) : (SkipNonSpaces_cond (charVal c) != 0) = (c != 0 && !isSpace c) :=
+  byte_cases (fun c => (SkipNonSpaces_cond (charVal c) != 0) = (c != 0 && !isSpace c)) (by decide) c
+
+set_option maxRecDepth 100000 in
+theorem C11_gen_SkipToEnd (c : UInt8) : (SkipToEnd_cond (charVal c) != 0) = (c != 0 && c.toNat != 10) :=
+  byte_cases (fun c => (SkipToEnd_cond (charVal c) != 0) = (c != 0 && c.toNat != 10)) (by decide) c
+
+/-- the loop of `SkipToMatchingQuote` (ampl/mp 7d345ba): `while (*s && *s != quote) ++s;` -/
+theorem C11_gen_SkipToMatchingQuote (c q : UInt8) :
+    (SkipToMatchingQuote_cond (charVal c) (charVal q) != 0) = (c != 0 && c != q) := by
+  by_cases h0 : c = 0
+  · subst h0; simp [SkipToMatchingQuote_cond, band, tobool, show charVal (0 : UInt8) = 0 by decide]
+  · by_cases hq : c = q
+    · subst hq; simp [SkipToMatchingQuote_cond, band, cne]
+    · have h0' : charVal c ≠ 0 := fun h => h0 (charVal_zero.mp h)
+      have hq' : charVal c ≠ charVal q := fun h => hq (charVal_inj.mp h)
+      simp [SkipToMatchingQuote_cond, band, tobool, cne, h0, hq, h0', hq']
+
+set_option maxRecDepth 100000 in
+theorem C11_gen_quoted (c : UInt8) : (quoted_ret (charVal c) != 0) = isQuote c :=
+  byte_cases (fun c => (quoted_ret (charVal c) != 0) = isQuote c) (by decide) c
+
+set_option maxRecDepth 100000 in
+/-- the name scan of `ParseOptionString`: `while (*s && !isspace(*s) && *s != '=') ++s;` -/
+theorem C11_gen_nameScan (c : UInt8) : (ParseOptionString_cond0 (charVal c) != 0) = (c != 0 && isNameChar c) :=
+  byte_cases (fun c => (ParseOptionString_cond0 (charVal c) != 0) = (c != 0 && isNameChar c)) (by decide) c
+
+set_option maxRecDepth 100000 in
+/-- the `=` test of `ParseOptionString` (`afterName`) -/
+theorem C11_gen_equalSign (c : UInt8) : (ParseOptionString_cond1 (charVal c) != 0) = (c.toNat == 61) :=
+  byte_cases (fun c => (ParseOptionString_cond1 (charVal c) != 0) = (c.toNat == 61)) (by decide) c
+
+set_option maxRecDepth 100000 in
+theorem C11_gen_queryMark (c : UInt8) : (ParseOptionString_cond2 (charVal c) != 0) = (c.toNat == 63) :=
+  byte_cases (fun c => (ParseOptionString_cond2 (charVal c) != 0) = (c.toNat == 63)) (by decide) c
+
+set_option maxRecDepth 100000 in
+theorem C11_gen_queryNext (d : UInt8) : (ParseOptionString_cond3 (charVal d) != 0) = (d == 0 || isSpace d) :=
+  byte_cases (fun d => (ParseOptionString_cond3 (charVal d) != 0) = (d == 0 || isSpace d)) (by decide) d
+
+/-- the `?` dispatch of `ParseOptionString`: `if (*s == '?') { char next = s[1]; if (!next || isspace(next)) …`
+is `isQuery`; the byte after the text is the NUL (0) when the list ends -/
+theorem C11_gen_query (c : UInt8) (r : Bytes) (hr : ∀ d ∈ r, d ≠ 0) :
+    isQuery (c :: r) = ((ParseOptionString_cond2 (charVal c) != 0) && (ParseOptionString_cond3 (charVal (r.headD 0)) != 0)) := by
+  rw [C11_gen_queryMark, C11_gen_queryNext]
+  cases r with
+  | nil => simp [isQuery]
+  | cons d t =>
+    have h0 : (d == 0) = false := by simpa using hr d (by simp)
+    simp [isQuery, h0]
+
+/-- exactly these four byte conditions occur in `ParseOptionString` -/
+theorem C11_gen_nconds : ParseOptionString_nconds = 4 := by decide
+
+/-- `OptionHelper<int>::Parse`: decimal `strtol`, result converted `long → int` modularly = the model's `wrap32` -/
+theorem C11_gen_intParse : intParse_base = 10 ∧ ∀ v : Int, LONG_MIN ≤ v → v ≤ LONG_MAX → intParse_conv v = wrap32 v := by
+  refine ⟨by decide, ?_⟩
+  intro v h1 h2
+  unfold LONG_MIN at h1
+  unfold LONG_MAX at h2
+  simp only [intParse_conv, conv, CTy.wrap, tI, tL, wrap32]
+  simp
+  omega
+
+/-- the loop shapes the pointer machines `pScan` / `pSkipToMatchingQuote` model -/
+theorem C11_gen_shapes :
+    SkipSpaces_shape = Expected.scanShape ∧ SkipNonSpaces_shape = Expected.scanShape ∧ SkipToEnd_shape = Expected.scanShape ∧
+    SkipToMatchingQuote_shape = Expected.quoteScanShape ∧ quoted_shape = "return cond(c0)" := by decide
+
+/-- the value kinds of the typed parser: int, long long (both `Kind.int`), double (`Kind.dbl`), string (`Kind.str`) -/
+theorem C11_gen_value_kinds : optionHelperTypes = Expected.optionHelperTypes := by decide
+
+end GenTie
+
+/-! the statement skeletons (see `Expected.lean` for which model function mirrors which) -/
+theorem C11_gen_skel_ParseOptionString : Gen.C11Tok.skel_ParseOptionString = Expected.skel_ParseOptionString := rfl
+theorem C11_gen_skel_OptionHelper_int_Parse : Gen.C11Tok.skel_OptionHelper_int_Parse = Expected.skel_OptionHelper_int_Parse := rfl
+theorem C11_gen_skel_OptionHelper_double_Parse : Gen.C11Tok.skel_OptionHelper_double_Parse = Expected.skel_OptionHelper_double_Parse := rfl
+theorem C11_gen_skel_OptionHelper_string_Parse : Gen.C11Tok.skel_OptionHelper_string_Parse = Expected.skel_OptionHelper_string_Parse := rfl
+theorem C11_gen_skel_ParseOptions : Gen.C11Tok.skel_ParseOptions = Expected.skel_ParseOptions := rfl
+theorem C11_gen_skel_FindOption : Gen.C11Tok.skel_FindOption = Expected.skel_FindOption := rfl
+theorem C11_gen_skel_wc_match : Gen.C11Tok.skel_wc_match = Expected.skel_wc_match := rfl
+theorem C11_gen_skel_wc_split : Gen.C11Tok.skel_wc_split = Expected.skel_wc_split := rfl
+theorem C11_gen_skel_UseOptionFile : Gen.C11Tok.skel_UseOptionFile = Expected.skel_UseOptionFile := rfl
+theorem C11_gen_skel_ProcessLines_AvoidComments : Gen.C11Tok.skel_ProcessLines_AvoidComments = Expected.skel_ProcessLines_AvoidComments := rfl
+theorem C11_gen_skel_SolverOption_ctor : Gen.C11Tok.skel_SolverOption_ctor = Expected.skel_SolverOption_ctor := rfl
+theorem C11_gen_skel_AddOption : Gen.C11Tok.skel_AddOption = Expected.skel_AddOption := rfl
+theorem C11_gen_skel_OptionNameLess : Gen.C11Tok.skel_OptionNameLess = Expected.skel_OptionNameLess := rfl
+theorem C11_gen_skel_TypedSolverOption_Parse : Gen.C11Tok.skel_TypedSolverOption_Parse = Expected.skel_TypedSolverOption_Parse := rfl
+theorem C11_gen_skel_OptionHelper_LongLong_Parse : Gen.C11Tok.skel_OptionHelper_LongLong_Parse = Expected.skel_OptionHelper_LongLong_Parse := rfl
+theorem C11_gen_skel_StoredOption_bool_is_flag : Gen.C11Tok.skel_StoredOption_bool_is_flag = Expected.skel_StoredOption_bool_is_flag := rfl
+theorem C11_gen_skel_StoredOption_bool_Parse : Gen.C11Tok.skel_StoredOption_bool_Parse = Expected.skel_StoredOption_bool_Parse := rfl
+theorem C11_gen_skel_echo_with_value : Gen.C11Tok.skel_echo_with_value = Expected.skel_echo_with_value := rfl
+
 /-! ## non-vacuity -/
 
 def cxSt0 : St := initState [{ id := 0, name := [120], syns := [], kind := .str }, { id := 1, name := [98, 105, 103], syns := [], kind := .int }]
@@ -393,6 +608,61 @@ example : parseStr cxCfg ([] ++ renderAll [(.assign [98, 105, 103] { pre := [], 
     = (.ok, applyAll cxCfg [(.assign [98, 105, 103] { pre := [], eq := true, post := [] } (.int { sign := none, ds := [52, 50] }), [])] cxSt0) :=
   C11_faithful cxCfg rfl _ C11_nonvacuous_items_wf [] Blank.nil cxSt0
 example : (Lit.int { sign := none, ds := [52, 50] }).val = .int 42 := by decide
+
+/-! non-trivial instances of the hypotheses used above (table: string option `x`, int option `big`, flag `f`) -/
+
+def cx2Decls : List OptDecl := [{ id := 0, name := [120], syns := [], kind := .str }, { id := 1, name := [98, 105, 103], syns := [[66]], kind := .int },
+                                { id := 2, name := [102], syns := [], kind := .flag }]
+def cx2Cfg : Cfg := { table := buildTable cx2Decls, noEcho := false, cmdLine := false, throwing := false }
+
+theorem C11_nonvacuous_keyok (k : Bytes) (h1 : k ≠ []) (h2 : ∀ c ∈ k, isNameChar c = true) (h3 : ∀ c r, k = c :: r → c.toNat ≠ 63) : KeyOk' k :=
+  ⟨⟨h1, h2⟩, h3⟩
+
+-- `x='a b'  big 7 f` : quoted string with a blank, an assignment without `=`, a flag; items separated by blanks
+theorem C11_nonvacuous_items_wf2 : ItemsWF cx2Cfg
+    [(.assign [120] { pre := [], eq := true, post := [] } (.quoted 39 [97, 32, 98]), [32, 9]),
+     (.assign [98, 105, 103] { pre := [32], eq := false, post := [] } (.int { sign := none, ds := [55] }), [32]),
+     (.assign [102] { pre := [], eq := false, post := [] } .flagOn, [])] := by
+  have hd : AllDigits [55] := by intro c hc; simp at hc; subst hc; decide
+  have k1 : KeyOk' [120] := C11_nonvacuous_keyok _ (by simp) (by decide) (by intro c r h; cases h; decide)
+  have k2 : KeyOk' [98, 105, 103] := C11_nonvacuous_keyok _ (by simp) (by decide) (by intro c r h; cases h; decide)
+  have k3 : KeyOk' [102] := C11_nonvacuous_keyok _ (by simp) (by decide) (by intro c r h; cases h; decide)
+  refine ⟨⟨k1, ⟨Blank.nil, Blank.nil⟩, ⟨{ id := 0, name := [120], syns := [], kind := .str }, none, by rfl, rfl, fun l h => by cases h⟩,
+            ⟨rfl, by decide, by decide⟩, by simp, by simp⟩, by decide, by simp, by simp [isRawAssign], ?_⟩
+  refine ⟨⟨k2, ⟨by decide, Blank.nil⟩, ⟨{ id := 1, name := [98, 105, 103], syns := [[66]], kind := .int }, none, by rfl, rfl, fun l _ => rfl⟩,
+            ⟨⟨by simp, hd⟩, by decide, by decide⟩, by simp, by simp⟩, by decide, by simp, by simp [isRawAssign], ?_⟩
+  exact ⟨⟨k3, ⟨Blank.nil, Blank.nil⟩, ⟨{ id := 2, name := [102], syns := [], kind := .flag }, none, by rfl, rfl, fun l h => by cases h⟩,
+            trivial, by simp, by simp⟩, Blank.nil, by simp, by simp [isRawAssign], trivial⟩
+
+-- so `C11_faithful` determines the parse of  `x='a b' \t big 7 f`
+example := C11_faithful cx2Cfg rfl _ C11_nonvacuous_items_wf2 [] Blank.nil (initState cx2Decls)
+
+-- well-formed query, unknown-key and flag-with-value items
+example : (Item.query [66] { pre := [], eq := true, post := [32] }).WF cx2Cfg :=
+  ⟨C11_nonvacuous_keyok _ (by simp) (by decide) (by intro c r h; cases h; decide), ⟨Blank.nil, by decide⟩, ⟨_, by rfl⟩, by simp⟩
+example : (Item.unknown [122, 122] [32] true).WF cx2Cfg :=
+  ⟨C11_nonvacuous_keyok _ (by simp) (by decide) (by intro c r h; cases h; decide), by decide, by rfl⟩
+example : (Item.flagArg [102] [] [32] [49]).WF cx2Cfg :=
+  ⟨C11_nonvacuous_keyok _ (by simp) (by decide) (by intro c r h; cases h; decide), Blank.nil, by decide,
+   ⟨{ id := 2, name := [102], syns := [], kind := .flag }, none, by rfl, rfl⟩, by simp, by decide, by decide⟩
+
+-- `B` is a synonym of `big`; `b` (other case) resolves to it: hypotheses of the lookup theorems are satisfiable
+example : lookup cx2Cfg.table [98] = some ({ id := 1, name := [98, 105, 103], syns := [[66]], kind := .int }, none) := by rfl
+example : NamesDistinct cx2Cfg.table := by
+  show List.Pairwise _ _
+  decide
+
+-- `C11_last_wins` / `C11_assign_sets_exactly`: `big=1 … big=42` leaves 42
+example : ((applyAll cx2Cfg [(.assign [98, 105, 103] { pre := [], eq := true, post := [] } (.int { sign := none, ds := [49] }), [32]),
+      (.assign [66] { pre := [], eq := true, post := [] } (.int { sign := none, ds := [52, 50] }), [])] (initState cx2Decls)).slot 1).val
+    = (Lit.int { sign := none, ds := [52, 50] }).val :=
+  C11_last_wins cx2Cfg [(.assign [98, 105, 103] { pre := [], eq := true, post := [] } (.int { sign := none, ds := [49] }), [32])] []
+    [66] { pre := [], eq := true, post := [] } (.int { sign := none, ds := [52, 50] }) []
+    { id := 1, name := [98, 105, 103], syns := [[66]], kind := .int } none (initState cx2Decls) (by rfl) (by rfl) (by decide) (by simp)
+
+-- option-file lines: comment, blank and indented lines are dropped/trimmed exactly as `ProcessLines_AvoidComments` does
+example : fileLines [35, 32, 99, 10, 10, 32, 32, 98, 105, 103, 61, 52, 50, 10, 32, 9, 10, 102] = [[98, 105, 103, 61, 52, 50], [102]] := by decide
+
 -- the former over-read input `x='` and `x='ab`: parsed normally, value = rest of the string
 example : parseStr cxCfg [120, 61, 39] cxSt0 = (.ok, cxSt0) := by
   rw [parseStr_cont (s' := []) (st' := cxSt0) (by rfl)]
